@@ -20,8 +20,12 @@ ASSUMPTIONS = [
     '"equal under Python equality" is read modulo the documented read-back normalisation (tuple -> list, bytearray -> list of '
     'ints, wrapper -> plain value), DESIGN.md section 9 (1)',
     'containers whose elements share a Python class but not a DBus type are outside the claim (generated, compared with the model, '
-    'not judged by the oracle); exception, as the property says ("travel as their common base type"): a list whose first element is a '
-    'plain int / str and whose other elements are instances of subclasses (bool, wrapper classes) fitting INT32 / STRING is inside',
+    'not judged by the oracle); exception, as the property says ("travel as their common base type"): a list (or the values of a dict) '
+    'whose first element is a plain int / str and whose other elements are instances of subclasses (bool, wrapper classes) fitting '
+    'INT32 / STRING is inside',
+    'dict keys of different DBus types are outside the claim: DBus dict keys are of one basic type and cannot be variants, and the '
+    'inference makes no class test on keys (type of the last key iterated), so neither consequence the property names for elements '
+    'that differ in Python type exists for keys',
     'inside the claim also means: scalars fit the type they infer (plain int: INT32; wrapper: its type; str: UTF-8 without NUL; '
     'ObjectPath: valid path; Signature: ASCII <= 255), every signature carried by a variant has <= 255 characters, dict keys are not NaN; '
     'ref_type below and inside_claim_b in coq/Spec/Homogeneous.v define the same set (compared on every generated value)',
@@ -174,10 +178,11 @@ def ref_type(v):
             raise Outside()
         vals = list(v.values())
         if all(isinstance(x, type(vals[0])) for x in vals[1:]):
-            # no base-type case here: the inference takes the type of the LAST value
+            # the common base type, as for lists (D61: the inference used the type of the LAST value)
             t = ref_type(vals[0])
-            if any(opt_type(x) != t for x in vals[1:]):
-                raise Outside()
+            for x in vals[1:]:
+                if opt_type(x) != t and not as_base(vals[0], x):
+                    raise Outside()
             return 'a{' + kt + t + '}'
         if not all(variant_ok(x) for x in vals):
             raise Outside()
@@ -445,7 +450,9 @@ def evaluate(ctx, cases, res):
             ninside += 1
             if impl != ('ok', want):
                 res.violate(case, 'inferred %r, the documented inference gives %r' % (impl, want), 'inference-differs')
-                continue
+                if impl[0] != 'ok':
+                    continue
+                # still show what the value decodes to under the signature the implementation inferred
             # both byte orders, and a start offset taken from the case seed (the claim has no such restriction)
             failed = False
             for lendian in (True, False):
